@@ -105,6 +105,64 @@ theorem c14_runMsgs_fails_if_any_message_fails (wall : Nat) (s : State) (pre : L
   rw [List.foldlM_append, hpre]
   simp only [bind, Except.bind, List.foldlM_cons, hm]
 
+/-- **A proposal's message batch applies as a whole or not at all**, and that is true of every proposal executed in an
+EndBlock, one after another: the state after the proposals `govs` is the state reached by folding, in order, over the ones
+that PASSED only — a proposal that failed (wrong signer, or any message failing after earlier ones succeeded) contributes
+nothing, whatever its earlier messages had written. -/
+theorem c14_failed_proposals_leave_no_trace (wall : Nat) (govs : List (List Msg)) :
+    ∀ (s : State) (flags : List Bool),
+      (govs.foldl (fun (acc : State × List Bool) ms =>
+        let (s', ok) := govExecAll wall acc.1 ms
+        (s', acc.2 ++ [ok])) (s, flags)).1 =
+      (govs.foldl (fun (st : State) ms =>
+        if (govExecAll wall st ms).2 = true then (govExecAll wall st ms).1 else st) s) := by
+  induction govs with
+  | nil => intro s flags; rfl
+  | cons ms rest ih =>
+    intro s flags
+    simp only [List.foldl_cons]
+    have hstep : (govExecAll wall s ms).1 = if (govExecAll wall s ms).2 = true then (govExecAll wall s ms).1 else s := by
+      by_cases hok : (govExecAll wall s ms).2 = true
+      · simp [hok]
+      · have hf : (govExecAll wall s ms).2 = false := by simpa using hok
+        have : (govExecAll wall s ms).1 = s := by
+          revert hf
+          unfold govExecAll
+          split
+          · split
+            · intro h; cases h
+            · intro _; rfl
+          · intro _; rfl
+        simp [hf, this]
+    rw [← hstep]
+    exact ih _ _
+
+/-- the same for the node the driver runs: the working state after `EndBlock` is the fold over the passed proposals, and
+when every proposal of the block failed it is the working state before (what the `failed-batch-changes-nothing` oracle
+demands of the real application). -/
+theorem c14_end_block_of_failed_proposals_is_identity (n : Node) (wall : Nat) (govs : List (List Msg)) :
+    (n.endBlock wall govs).1.working =
+      (govs.foldl (fun (st : State) ms =>
+        if (govExecAll wall st ms).2 = true then (govExecAll wall st ms).1 else st) n.working) ∧
+    ((∀ ms ∈ govs, ∀ st, (govExecAll wall st ms).2 = false) → (n.endBlock wall govs).1.working = n.working) := by
+  have h1 : (n.endBlock wall govs).1.working =
+      (govs.foldl (fun (st : State) ms =>
+        if (govExecAll wall st ms).2 = true then (govExecAll wall st ms).1 else st) n.working) := by
+    have := c14_failed_proposals_leave_no_trace wall govs n.working []
+    simpa [Node.endBlock] using this
+  refine ⟨h1, ?_⟩
+  intro hall
+  rw [h1]
+  clear h1
+  generalize n.working = w
+  induction govs generalizing w with
+  | nil => rfl
+  | cons ms rest ih =>
+    simp only [List.foldl_cons]
+    rw [hall ms (by simp) w]
+    simp only [Bool.false_eq_true, if_false]
+    exact ih (fun ms' hm st => hall ms' (by simp [hm]) st) w
+
 -- non-vacuity: a concrete state with an accepted order satisfies the room hypothesis
 example : (2 : Int) ^ 255 = 57896044618658097711785492504343953926634992332820282019728792003956564819968 := by decide
 
